@@ -181,16 +181,25 @@ impl<'l> CelCompiler<'l> {
             let after_true_clause = self.new_label();
             let end_label = self.new_label();
 
+            // The condition goes through TEST like every other truthiness consumer
+            // (matching the constant-folded form above). A copy of the tested value
+            // stays on the stack so that a failed condition becomes the result:
+            // NOT keeps an error an error, and JMPCOND False jumps on errors.
             CompiledProg {
                 inner: NodeValue::Bytecode(
                     expr_node
                         .into_bytecode()
                         .into_iter()
                         .chain(
-                            [PreResolvedCodePoint::JmpCond {
-                                when: JmpWhen::False,
-                                label: after_true_clause,
-                            }]
+                            [
+                                PreResolvedCodePoint::Bytecode(ByteCode::Test),
+                                PreResolvedCodePoint::Bytecode(ByteCode::Dup),
+                                PreResolvedCodePoint::JmpCond {
+                                    when: JmpWhen::False,
+                                    label: after_true_clause,
+                                },
+                                PreResolvedCodePoint::Bytecode(ByteCode::Pop),
+                            ]
                             .into_iter(),
                         )
                         .chain(true_clause_bytecode.into_iter())
@@ -198,6 +207,13 @@ impl<'l> CelCompiler<'l> {
                             [
                                 PreResolvedCodePoint::Jmp { label: end_label },
                                 PreResolvedCodePoint::Label(after_true_clause),
+                                PreResolvedCodePoint::Bytecode(ByteCode::Dup),
+                                PreResolvedCodePoint::Bytecode(ByteCode::Not),
+                                PreResolvedCodePoint::JmpCond {
+                                    when: JmpWhen::False,
+                                    label: end_label,
+                                },
+                                PreResolvedCodePoint::Bytecode(ByteCode::Pop),
                             ]
                             .into_iter(),
                         )
